@@ -551,6 +551,13 @@ def r_levels(prog, tier):
         rev = [n for n in stores if isinstance(n.ast, ast.Assign) and unparse(n.ast.targets[0].slice) == loopv]
         if app and rev:
             together = all(cfg.always_with(a.id, r.id) and cfg.always_with(r.id, a.id) for a in app for r in rev)
+            if not together:
+                # both filings written once per branch: every filing into one table has a partner into the other on its branch
+                filed = app + [n for n in stores if isinstance(n.ast, ast.Assign) and isinstance(n.ast.value, ast.List)
+                               and any(isinstance(e_, ast.Name) and e_.id == loopv for e_ in n.ast.value.elts)]
+                pair = lambda x, ys: any(cfg.always_with(x.id, y.id) and cfg.always_with(y.id, x.id) for y in ys)
+                if all(pair(a, rev) for a in filed) and all(pair(r, filed) for r in rev):
+                    together = True
             if not together and len(rev) == 1 and rev[0].loops and all(a.loops and a.loops[-1] == rev[0].loops[-1] for a in app):
                 # the same filing written once per branch: taken together, one of them runs whenever the other table is written
                 r0, hdr = rev[0], rev[0].loops[-1]
